@@ -800,8 +800,20 @@ impl CanonicalizeContext {
 				}
 			} else {
 				// create some content so that speech rules don't require special cases
-				let mtext = CanonicalizeContext::create_empty_element(&mathml.document());
-				mathml.append_child(mtext);
+				let doc = mathml.document();
+				let mut content = CanonicalizeContext::create_empty_element(&doc);
+				// a table needs rows and a row needs cells -- wrap the placeholder so that the table structure stays valid
+				if element_name == "mtable" || element_name == "mtr" || element_name == "mlabeledtr" {
+					let mtd = create_mathml_element(&doc, "mtd");
+					mtd.append_child(content);
+					content = mtd;
+				}
+				if element_name == "mtable" {
+					let mtr = create_mathml_element(&doc, "mtr");
+					mtr.append_child(content);
+					content = mtr;
+				}
+				mathml.append_child(content);
 				// return Some(mathml);
 			}
 		};
